@@ -25,6 +25,7 @@ type c30case struct {
 var c30snips = []string{
 	"echo", " ", "a", "ls", "$x", "{", "}", "|", "put", "'", "\"", "#c", "\n", "(", ")", "[", "]", "&k=v",
 	"nosuchcmd", "if", "e:ls", "fn f { }", "var x = 1", ";", ">", "<", "?", "*", "~", "$", "\\", "é", "\xff", "\xc3",
+	"\x80", "\xbf", "\xf0\x9f", "😀", "\u00a0", "$*", "$]", "a\x80b",
 	"for x [a b] { put $x }", "while", "each {|x| put $x }", "try { fail x } catch e { }", "peach", "use str",
 }
 
@@ -60,7 +61,13 @@ func runC30(c *Ctx) {
 	}
 	cur := genCode(w)
 	for i := 0; i < ncodes; i++ {
-		switch w.Draw(8) {
+		switch w.Draw(9) {
+		case 8:
+			// insert one byte at a random place, biased towards the bytes that
+			// make UTF-8 invalid (stray continuation bytes, truncated leaders)
+			k := w.Draw(len(cur) + 1)
+			bs := []byte{0x80, 0x80, 0xbf, 0xc3, 0xe2, 0xf0, 0xff, 0x00, 0x1b, '$', '\\', '\'', '"', byte(w.Draw(256))}
+			cur = cur[:k] + string([]byte{bs[w.Draw(len(bs))]}) + cur[k:]
 		case 0:
 			cur = genCode(w)
 		case 1:
